@@ -383,3 +383,92 @@ rows:
 	}
 	return r
 }
+
+// MaurerUniversalTest_alt1: every block's pattern value built afresh from its own L bits instead of being the low L
+// bits of a register carried across blocks: the low L bits of the register ARE the last L bits shifted in, so the
+// masked value is the same number.
+func MaurerUniversalTest_alt1(x []bool) (float64, float64) {
+	n := len(x)
+	L := 7
+	Q := 1280
+	T := make([]int, 1<<uint(L))
+	K := n/L - Q
+	sum := 0.0
+	expected := []float64{0, 0, 0, 0, 0, 0, 5.2177052, 6.1962507, 7.1836656, 8.1764248, 9.1723243, 10.170032, 11.168765, 12.168070, 13.167693, 14.167488, 15.167379}
+	variance := []float64{0, 0, 0, 0, 0, 0, 2.954, 3.125, 3.238, 3.311, 3.356, 3.384, 3.401, 3.410, 3.416, 3.419, 3.421}
+	for i := 1; i <= Q; i++ {
+		t := 0
+		for j := 0; j < L; j++ {
+			t = 2 * t
+			if x[(i-1)*L+j] {
+				t++
+			}
+		}
+		T[t] = i
+	}
+	for i := Q + 1; i <= Q+K; i++ {
+		t := 0
+		for j := 0; j < L; j++ {
+			t = 2 * t
+			if x[(i-1)*L+j] {
+				t++
+			}
+		}
+		sum += math.Log(float64(i)-float64(T[t])) / math.Log(2)
+		T[t] = i
+	}
+	c := 0.7 - 0.8/float64(L) + (4+32/float64(L))*(math.Pow(float64(K), -3/float64(L))/15)
+	sigma := math.Sqrt(variance[L]/float64(K)) * c
+	V := (sum/float64(K) - expected[L]) / sigma
+	return normalPQ(V)
+}
+
+// rank_alt4: the private copy's rows cut out of ONE m*m backing array (row i = buf[i*m:(i+1)*m], disjoint windows, so
+// the copy holds the same values as m separately allocated rows), and a non-zero row found by ranging over the row and
+// stopping at its first non-zero entry. rowEchelon only writes ELEMENTS of the rows it is given (R-EQUIV@rowEchelon pins
+// that), so every t[i] still has its m entries afterwards and ranging over t[i] visits columns 0..m-1.
+func rank_alt4(matrix [][]int, m int) int {
+	t := make([][]int, m)
+	buf := make([]int, m*m)
+	for i := 0; i < m; i++ {
+		row := buf[i*m : (i+1)*m]
+		for j := 0; j < m; j++ {
+			row[j] = matrix[i][j]
+		}
+		t[i] = row
+	}
+	rowEchelon(t, m)
+	r := 0
+	for i := 0; i < m; i++ {
+		for _, v := range t[i] {
+			if v != 0 {
+				r++
+				break
+			}
+		}
+	}
+	return r
+}
+
+// rank_alt5: separately allocated rows as in the primary form, rows and entries visited by range with the early stop
+// (same argument as rank_alt4 for the length of the rows after elimination).
+func rank_alt5(matrix [][]int, m int) int {
+	t := make([][]int, m)
+	for i := 0; i < m; i++ {
+		t[i] = make([]int, m)
+		for j := 0; j < m; j++ {
+			t[i][j] = matrix[i][j]
+		}
+	}
+	rowEchelon(t, m)
+	r := 0
+	for _, row := range t {
+		for _, v := range row {
+			if v != 0 {
+				r++
+				break
+			}
+		}
+	}
+	return r
+}
